@@ -1,12 +1,12 @@
 """U6 - src/router.rs: Router::run (dispatch + stop).  Verus."""
-from vf.gen import Unit, Fn, Clause, Hint, Rule, Loop
+from vf.gen import Unit, Fn, Clause, Hint, Rule, Loop, AppendArg
 
 F = "src/router.rs"
 W = "Tracked(&mut *w)"
 
 RUN_RULES = [
     Rule("B8", r"self\.ipc_receiver_set\.select\(\)", "self.ipc_receiver_set.select(%s)" % W, "receiver set stub over the ghost world", min_count=1),
-    Rule("B9", r"self\.msg_receiver\.recv\(\)", "self.msg_receiver.recv(%s)" % W, "crossbeam receiver stub", min_count=1),
+    AppendArg("B9", r"self\.msg_receiver\.(?:recv|try_recv|recv_timeout)\(", W, "crossbeam receiver stub", min_count=1),
     Rule("B10", r"self\.ipc_receiver_set\.add_opaque\(receiver\)", "self.ipc_receiver_set.add_opaque(receiver, %s)" % W, "receiver set stub", min_count=1),
     Rule("B11", r"sender\s*\.send\(\(\)\)", "sender.send((), %s, Ghost(self.handlers@.len()))" % W,
          "acknowledgement send: the stub records how many callbacks are alive at that instant", min_count=1),
@@ -23,6 +23,8 @@ OUTER = [
            "forall|id: u64| #[trigger] self.handlers@.contains_key(id) ==> id != wk && w.live.contains(id)", ["C07"]),
     Clause("router.run/loop0.invariant.dispatched_exactly_the_delivered_messages",
            "w.calls == routed(w.delivered, wk)", ["C07"]),
+    Clause("router.run/loop0.invariant.every_wakeup_matched_by_one_message",
+           "w.credit == 0", ["C07", "C17"]),
 ]
 
 INNER = [
@@ -42,7 +44,7 @@ INNER = [
     Clause("router.run/loop1.invariant.dispatched_exactly_once_in_order",
            "w.delivered == d0 + msgs(rs) && w.calls == routed(d0, wk) + routed(msgs(rs.subrange(0, it.index() as int)), wk)", ["C07"]),
     Clause("router.run/loop1.invariant.wakeups_paired",
-           "w.credit + wakeups(rs.subrange(0, it.index() as int), wk) >= wakeups(rs, wk)", ["C07", "C17"]),
+           "w.credit + wakeups(rs.subrange(0, it.index() as int), wk) == wakeups(rs, wk)", ["C07", "C17"]),
 ]
 
 STEP = (
@@ -65,7 +67,7 @@ run = Fn(F, ["impl Router", "run"], extra_params="Tracked(w): Tracked<&mut W>",
                "old(self).msg_wakeup_id == old(w).wakeup && !old(w).acked && old(w).issued.contains(old(w).wakeup) && old(w).live.subset_of(old(w).issued) && old(w).live.contains(old(w).wakeup)\n"
                "&& (forall|id: u64| old(w).live.contains(id) && id != old(w).wakeup ==> #[trigger] old(self).handlers@.contains_key(id))\n"
                "&& (forall|id: u64| #[trigger] old(self).handlers@.contains_key(id) ==> id != old(w).wakeup && old(w).live.contains(id))\n"
-               "&& old(w).calls == routed(old(w).delivered, old(w).wakeup)"),
+               "&& old(w).calls == routed(old(w).delivered, old(w).wakeup) && old(w).credit == 0"),
     ],
     ensures=[
         Clause("router.run/ensures.callbacks_dropped_before_ack", "final(w).acked ==> final(w).handlers_at_ack == 0", ["C17"]),
